@@ -250,7 +250,7 @@ PROPS = {
             "translator T1: harness/dump_tables.cpp compiled by g++ in -std=c++11/14/17/20 against /repo's current headers and sources (-fno-access-control) + harness/gen_tables.py",
             "Spec.CodePoints: hand transcription of the Standard's set definitions (DESIGN appendix A.1)"],
         assumptions=["the four language modes are exercised with g++ 12.2 only"]),
-    "C01": P("proof", model_variants=["spec", "impl"], streams=["parse", "parse_exhaustive"], trusted_base=TB_CORR + [TB_ICU_LAWS], coq_files=["Properties_C01_total.v", "Properties_C01.v"]),
+    "C01": P("proof", model_variants=["spec", "impl"], streams=["parse", "parse_exhaustive"], trusted_base=TB_CORR + [TB_ICU_LAWS], coq_files=["Properties_C01_total.v", "Properties_C01.v", "Properties_C01_serializer.v"]),
     "C02": P("proof", model_variants=["spec", "impl"], streams=["reparse"], trusted_base=TB_CORR + [TB_ICU_LAWS2]),
     "C03": P("proof", model_variants=["spec", "impl"], streams=["setters", "serops", "settrace"], trusted_base=TB_CORR + [TB_ICU_LAWS, TB_SER, TB_TRACE], coq_files=["Properties_C03.v", "Properties_C03_serializer.v"]),
     "C05": P("proof", model_variants=["spec", "impl"], streams=["histories", "serops"], trusted_base=TB_CORR + [TB_ICU_LAWS, TB_ICU_LAWS2], coq_files=["Properties_C05.v", "Properties_C05_proto2.v", "Properties_C05_repr.v", "Properties_C06.v"]),
